@@ -95,7 +95,7 @@ def hack_table(strings, rl_col):
     if not (isinstance(out, list) and all(is_plain_int(x) for x in out)):
       raise Unrepresentable('_clean_up_value(%r) = %r' % (s, out))
     items.append('(%s, %s)' % (core.strlit(s), core.zlist(list(out))))
-  return core.coq_list(items)
+  return '(%s : list (list Z * list Z))' % core.coq_list(items)
 
 
 def strings_in(values):
@@ -211,3 +211,140 @@ def gen_ops(r, kind, n, with_clear=True):
     else:
       ops.append(('clear',))
   return ops
+
+
+# ---- instrumentation of the real column classes (harness side; never edits /repo) ---------------------
+class Recorder(object):
+  """
+  Logs, per live reference-column object, the sequence of state-changing calls it receives
+  (set / clear / copy_from_column / growto), from its construction on.  Installed by monkeypatching the
+  classes of the imported `column` module; restored by close().
+  """
+  POINTS = [('BaseReferenceColumn', '__init__'), ('BaseReferenceColumn', 'set'),
+            ('BaseReferenceColumn', 'copy_from_column'), ('BaseColumn', 'clear'), ('BaseColumn', 'growto')]
+
+  def __init__(self):
+    self.saved = []
+    self.depth = 0
+    for cls_name, meth in self.POINTS:
+      cls = getattr(column_mod, cls_name, None)
+      if cls is None or meth not in cls.__dict__:
+        raise core.TieBroken('instrumentation point column.%s.%s disappeared' % (cls_name, meth))
+    rec = self
+    B, R = column_mod.BaseColumn, column_mod.BaseReferenceColumn
+    o_init, o_set, o_copy = R.__dict__['__init__'], R.__dict__['set'], R.__dict__['copy_from_column']
+    o_clear, o_grow = B.__dict__['clear'], B.__dict__['growto']
+
+    def nested(fn, *a):
+      rec.depth += 1
+      try:
+        return fn(*a)
+      finally:
+        rec.depth -= 1
+
+    def init(self, *a, **kw):
+      nested(lambda: o_init(self, *a, **kw))
+      self._k4_ops = []
+
+    def set_(self, row_id, value):
+      if rec.depth == 0 and hasattr(self, '_k4_ops'):
+        self._k4_ops.append(('set', row_id, value))
+      return nested(o_set, self, row_id, value)
+
+    def copy(self, other):
+      if rec.depth == 0 and hasattr(self, '_k4_ops'):
+        self._k4_ops.append(('copy', list(other._data)))
+      return nested(o_copy, self, other)
+
+    def clear(self):
+      if rec.depth == 0 and hasattr(self, '_k4_ops'):
+        self._k4_ops.append(('clear',))
+      return nested(o_clear, self)
+
+    def grow(self, size):
+      if rec.depth == 0 and hasattr(self, '_k4_ops'):
+        self._k4_ops.append(('grow', size))
+      return nested(o_grow, self, size)
+
+    for cls, name, new in [(R, '__init__', init), (R, 'set', set_), (R, 'copy_from_column', copy),
+                           (B, 'clear', clear), (B, 'growto', grow)]:
+      self.saved.append((cls, name, cls.__dict__[name]))
+      setattr(cls, name, new)
+
+  def close(self):
+    for cls, name, old in reversed(self.saved):
+      setattr(cls, name, old)
+    self.saved = []
+
+
+def ref_columns(e, data_only=True):
+  """All live Ref/RefList column objects of the engine: [(table_id, col_id, column)]."""
+  out = []
+  for tid in sorted(e.tables):
+    t = e.tables[tid]
+    for cid in sorted(t.all_columns):
+      c = t.all_columns[cid]
+      if isinstance(c, column_mod.BaseReferenceColumn) and not (data_only and c.is_formula()):
+        out.append((tid, cid, c))
+  return out
+
+
+def index_exact(col):
+  """None if the relation's inverse_map is exactly the reverse of the cells, else a description."""
+  want = collections.defaultdict(set)
+  for r, v in enumerate(col._data):
+    for t in col._value_iterable(v):
+      want[t].add(r)
+  have = {t: set(rows) for t, rows in col._relation.inverse_map.items() if rows}
+  if dict(want) == have:
+    return None
+  for t in sorted(set(want) | set(have), key=repr):
+    if want.get(t, set()) != have.get(t, set()):
+      return 'target %r: cells give %r, inverse_map has %r' % (t, sorted(want.get(t, ())), sorted(have.get(t, ())))
+  return 'differs'
+
+
+def target_id(col):
+  return col.type_obj.table_id
+
+
+def world_snapshot(e, table_id, names=None):
+  """
+  The removal world of table_id as a Coq `world` term plus the list of (table, col) names in it: the data
+  Ref/RefList columns OF the table (own) and TARGETING it (back).  `names` fixes the columns (for the snapshot
+  after the removal).
+  """
+  t = e.tables[table_id]
+  cols = []
+  got = []
+  for tid, cid, c in ref_columns(e):
+    own = tid == table_id
+    back = target_id(c) == table_id
+    if names is not None:
+      if (tid, cid) not in names:
+        continue
+    elif not (own or back):
+      continue
+    got.append((tid, cid))
+    cols.append('{| w_col := %s; w_rows := %s; w_own := %s; w_back := %s |}' % (
+      enc_col(c), natlist(sorted(e.tables[tid].row_ids)), core.boollit(own), core.boollit(back)))
+  if names is not None and got != list(names):
+    raise Unrepresentable('columns changed during the removal')
+  return '{| wd_rows := %s; wd_cols := %s |}' % (natlist(sorted(t.row_ids)), core.coq_list(cols)), got
+
+
+def col_strings(e, names):
+  out = []
+  for tid, cid in names:
+    out.extend(v for v in e.tables[tid].get_column(cid)._data if isinstance(v, str))
+  return out
+
+
+def any_rl_column():
+  """A real ReferenceListColumn to tabulate _clean_up_value with (it does not depend on the column's state)."""
+  global _FX
+  try:
+    return _FX.col('KRefList')
+  except NameError:
+    _FX = Fixture()
+    return _FX.col('KRefList')
